@@ -8,9 +8,11 @@ import (
 	"encoding/json"
 	"errors"
 	"fmt"
+	"io"
 	"sort"
 	"strconv"
 	"strings"
+	"sync"
 	"time"
 	"unicode/utf8"
 
@@ -228,7 +230,11 @@ func toGo(j J) interface{} {
 
 var strPool = []string{"", "a", "abc", "a\"b", "back\\slash", "line\nfeed", "tab\t", "\r", "\b\f", "\x00", "\x1f", "\x7f",
 	"<tag>", "a&b", "é", "ö€", "😀", "\u2028", "x\u2029y", "\ufffd", "/", "'", "test.model", "日本語", "a.b.c", "K", "ſ"}
-var numPool = []string{"0", "1", "-1", "42", "1.0", "-0", "1e3", "1E-2", "0.5", "12345678901234567890", "-12.5e+10"}
+var numPool = []string{"0", "1", "-1", "42", "1.0", "-0", "1e3", "1E-2", "0.5", "12345678901234567890", "-12.5e+10",
+	// around +-2^53 and +-2^63, long fractions, exponents, the spellings of one and zero
+	"9007199254740991", "9007199254740992", "9007199254740993", "-9007199254740992", "-9007199254740993", "9007199254740992.0",
+	"9223372036854775807", "9223372036854775808", "-9223372036854775808", "-9223372036854775809", "18446744073709551616", "9.223372036854775807e18",
+	"0.1", "0.10000000000000000555", "0.1000000000000000055511151231257827", "3.141592653589793238462643383279", "1e0", "1E+2", "100", "1e2", "1e400", "-0.0", "0e0", "0.0", "1.00"}
 var canonNumPool = []string{"0", "1", "7", "-3", "42", "1000"}
 var keyPool = []string{"a", "b", "c", "x y", "k<", "é", "", "id", "q\"", "value", "Z"}
 
@@ -629,12 +635,85 @@ func caseRef(rid string) Case {
 	return c
 }
 
+// scribble overwrites a caller-owned input buffer after the decoder returned (the decoder only borrowed it)
+func scribble(buf []byte, k int) {
+	junk := []byte(`{"rid":"zz.zz","data":[9,9],"action":"delete","error":{"code":"zz"},"result":0} `)
+	for i := range buf {
+		if k%2 == 0 {
+			buf[i] = junk[i%len(junk)]
+		} else {
+			buf[i] = 'x'
+		}
+	}
+}
+
+func valueSame(a, b store.Value) bool {
+	ma, _ := a.MarshalJSON()
+	mb, _ := b.MarshalJSON()
+	return a.Type == b.Type && a.RID == b.RID && bytes.Equal(a.RawMessage, b.RawMessage) && bytes.Equal(a.Inner, b.Inner) && bytes.Equal(ma, mb)
+}
+
+// streamAlias: >= 4 documents through ONE json.Decoder into distinct Values; the observables are taken at the end
+// and must be those of independent decodes
+func streamAlias(texts []string) *ImplViolation {
+	var docs []string
+	for _, t := range texts {
+		var probe store.Value
+		if json.Valid([]byte(t)) && json.Unmarshal([]byte(t), &probe) == nil {
+			docs = append(docs, strings.TrimSpace(t))
+		}
+	}
+	if len(docs) < 4 {
+		return nil
+	}
+	// a reader that hands out small pieces makes the decoder refill and shift its buffer
+	dec := json.NewDecoder(&chunkReader{data: []byte(strings.Join(docs, "\n")), n: 7})
+	vals := make([]store.Value, len(docs))
+	for i := range docs {
+		if err := dec.Decode(&vals[i]); err != nil {
+			return &ImplViolation{What: "json.Decoder stream: " + err.Error(), Desc: mkDesc("stream", docs...)}
+		}
+	}
+	for i, d := range docs {
+		var f store.Value
+		f.UnmarshalJSON([]byte(d))
+		if !valueSame(vals[i], f) || !vals[i].Equal(f) || !f.Equal(vals[i]) {
+			return &ImplViolation{What: fmt.Sprintf("document %d of a json.Decoder stream decoded into a store.Value reads %q/%q at the end of the stream, an independent decode %q/%q",
+				i, vals[i].RawMessage, vals[i].Inner, f.RawMessage, f.Inner), Desc: mkDesc("stream", docs...), Tags: []string{"alias"}}
+		}
+	}
+	return nil
+}
+
+type chunkReader struct {
+	data []byte
+	n    int
+}
+
+func (c *chunkReader) Read(p []byte) (int, error) {
+	if len(c.data) == 0 {
+		return 0, io.EOF
+	}
+	k := c.n
+	if k > len(p) {
+		k = len(p)
+	}
+	if k > len(c.data) {
+		k = len(c.data)
+	}
+	copy(p, c.data[:k])
+	c.data = c.data[k:]
+	return k, nil
+}
+
 // violations seen by the Go side when decoding into non-zero targets
 var reuseImpl []ImplViolation
 
 func caseRefU(text string) Case {
 	var r res.Ref
-	err := r.UnmarshalJSON([]byte(text))
+	rbuf := []byte(text)
+	err := r.UnmarshalJSON(rbuf)
+	scribble(rbuf, len(text))
 	c := Case{Desc: mkDesc("refu", text)}
 	// the same text into targets that already hold something
 	used, usedSoft := res.Ref("old.value"), res.SoftRef("old.value")
@@ -764,7 +843,9 @@ func caseDV(j J, via string) (Case, *ImplViolation) {
 	d := desc{Kind: "dv", J: &j, Via: via, Value: string(printJ(j))}
 	pan := safe(func() {
 		gm, err = resprot.MarshalDataValue(goValue(j, via))
-		uerr = resprot.UnmarshalDataValue(gm, &raw)
+		ubuf := append([]byte{}, gm...)
+		uerr = resprot.UnmarshalDataValue(ubuf, &raw)
+		scribble(ubuf, len(ubuf))
 		// a typed target: decoding into res.DataValue[RawMessage] must give the member "data" of j
 		if j.K == 'o' && len(j.O) == 1 && j.O[0].Key == "data" {
 			var dv res.DataValue[json.RawMessage]
@@ -831,7 +912,9 @@ func envelopeValues() []J {
 func caseDVU(text string) Case {
 	var raw json.RawMessage
 	var err error
-	pan := safe(func() { err = resprot.UnmarshalDataValue([]byte(text), &raw) })
+	dbuf := []byte(text)
+	pan := safe(func() { err = resprot.UnmarshalDataValue(dbuf, &raw) })
+	scribble(dbuf, len(text))
 	c := Case{Desc: mkDesc("dvu", text)}
 	// the same text into a target that already holds something
 	used := json.RawMessage(`{"old":[1,2,3]}`)
@@ -862,7 +945,19 @@ func caseVal(ts [3]string) Case {
 	for i, t := range ts {
 		var v store.Value
 		var err error
-		pan := safe(func() { err = v.UnmarshalJSON([]byte(t)) })
+		buf := []byte(t)
+		pan := safe(func() { err = v.UnmarshalJSON(buf) })
+		if !pan && err == nil {
+			// the decoder only borrowed buf: whatever happens to it now must not show in v
+			before := valueTerm(v)
+			scribble(buf, i+len(t))
+			var f store.Value
+			f.UnmarshalJSON([]byte(t))
+			if after := valueTerm(v); after != before || !valueSame(v, f) || !v.Equal(f) || !f.Equal(v) {
+				reuseImpl = append(reuseImpl, ImplViolation{What: fmt.Sprintf("store.Value changed after its input buffer was overwritten: RawMessage %q Inner %q, independent decode %q %q", v.RawMessage, v.Inner, f.RawMessage, f.Inner),
+					Desc: mkDesc("val", ts[0], ts[1], ts[2]), Tags: []string{"alias"}})
+			}
+		}
 		switch {
 		case pan:
 			direct = append(direct, outcomePanic())
@@ -874,7 +969,9 @@ func caseVal(ts [3]string) Case {
 			types += strconv.Itoa(int(v.Type))
 		}
 		var w store.Value
-		pan = safe(func() { err = json.Unmarshal([]byte(t), &w) })
+		buf2 := []byte(t)
+		pan = safe(func() { err = json.Unmarshal(buf2, &w) })
+		scribble(buf2, i)
 		switch {
 		case pan:
 			via = append(via, outcomePanic())
@@ -920,8 +1017,11 @@ func reuseDecode(mode int, a, b string) (v store.Value, err error, pan bool) {
 	pan = safe(func() {
 		switch mode {
 		case 0:
-			v.UnmarshalJSON([]byte(a))
-			err = v.UnmarshalJSON([]byte(b))
+			ab, bb := []byte(a), []byte(b)
+			v.UnmarshalJSON(ab)
+			scribble(ab, 1)
+			err = v.UnmarshalJSON(bb)
+			scribble(bb, 0)
 		case 1:
 			json.Unmarshal([]byte(a), &v)
 			err = json.Unmarshal([]byte(b), &v)
@@ -1020,7 +1120,22 @@ type script struct {
 	Get    bool       `json:"get,omitempty"`
 	Call   string     `json:"call,omitempty"`
 	Status int        `json:"status,omitempty"`
-	Header [][]string `json:"header,omitempty"` // key, values... ; sorted by key
+	Header [][]string `json:"header,omitempty"`                       // key, values... ; sorted by key
+	Seq    bool       `json:"after_custom_message_helpers,omitempty"` // ran after seqMutators() in the same process
+}
+
+// seqMutators: helper calls carrying a custom message (and their message-less siblings), on Request and QueryRequest
+func seqMutators() []*script {
+	var seq []*script
+	for _, req := range []string{"call", "auth", "get", "access", "query"} {
+		seq = append(seq, &script{Req: req, Kind: "invalidquery", Msg: "custom query message " + req},
+			&script{Req: req, Kind: "notfound"})
+	}
+	for _, req := range []string{"call", "auth"} {
+		seq = append(seq, &script{Req: req, Kind: "invalidparams", Msg: "custom params message " + req},
+			&script{Req: req, Kind: "methodnotfound"})
+	}
+	return append(seq, &script{Req: "access", Kind: "denied"}, &script{Req: "access", Kind: "access"})
 }
 
 type pubMsg struct {
@@ -1028,8 +1143,30 @@ type pubMsg struct {
 	data []byte
 }
 type recConn struct {
-	in  chan *nats.Msg
-	pub chan pubMsg
+	mu   sync.Mutex
+	in   chan *nats.Msg
+	subs map[string]chan *nats.Msg // subscriptions other than the service's own (query event inboxes)
+	pub  chan pubMsg
+}
+
+func (c *recConn) subscribe(subject string, ch chan *nats.Msg) {
+	c.mu.Lock()
+	defer c.mu.Unlock()
+	for _, p := range []string{"get.", "call.", "auth.", "access."} {
+		if strings.HasPrefix(subject, p) {
+			c.in = ch
+			return
+		}
+	}
+	if c.subs == nil {
+		c.subs = map[string]chan *nats.Msg{}
+	}
+	c.subs[subject] = ch
+}
+func (c *recConn) sub(subject string) chan *nats.Msg {
+	c.mu.Lock()
+	defer c.mu.Unlock()
+	return c.subs[subject]
 }
 
 func (c *recConn) Publish(subject string, payload []byte) error {
@@ -1038,11 +1175,11 @@ func (c *recConn) Publish(subject string, payload []byte) error {
 }
 func (c *recConn) PublishRequest(subject, reply string, data []byte) error { return nil }
 func (c *recConn) ChanSubscribe(subject string, ch chan *nats.Msg) (*nats.Subscription, error) {
-	c.in = ch
+	c.subscribe(subject, ch)
 	return &nats.Subscription{}, nil
 }
 func (c *recConn) ChanQueueSubscribe(subject, queue string, ch chan *nats.Msg) (*nats.Subscription, error) {
-	c.in = ch
+	c.subscribe(subject, ch)
 	return &nats.Subscription{}, nil
 }
 func (c *recConn) Close() {}
@@ -1091,6 +1228,8 @@ func (sv *svc) common(r commonReq) bool {
 		r.Error(e)
 	case "errorpredef":
 		r.Error(predefErr[sc.Code])
+	case "panicpredef":
+		panic(predefErr[sc.Code])
 	case "errornil":
 		r.Error((*res.Error)(nil))
 	case "errorother":
@@ -1229,7 +1368,61 @@ func (sv *svc) stop() {
 }
 
 // run performs one request; ok=false when no reply arrived
+// runQuery: a query event is sent for the resource and one query request is answered by the script
+func (sv *svc) runQuery(sc *script) ([]byte, bool) {
+	sv.cur = sc
+	sv.n++
+	reply := "reply." + strconv.Itoa(sv.n)
+	err := sv.s.With("test.model", func(r res.Resource) {
+		r.QueryEvent(func(qr res.QueryRequest) {
+			if qr == nil {
+				return
+			}
+			if sv.common(qr) {
+				return
+			}
+			sc := sv.cur
+			switch sc.Kind {
+			case "model":
+				qr.Model(toGo(*sc.Result))
+			case "collection":
+				qr.Collection(toGo(*sc.Result))
+			default:
+				panic("harness: bad query script kind " + sc.Kind)
+			}
+		})
+	})
+	if err != nil {
+		return nil, false
+	}
+	deadline := time.After(5 * time.Second)
+	for {
+		select {
+		case m := <-sv.c.pub:
+			if m.subj == "event.test.model.query" {
+				var ev struct {
+					Subject string `json:"subject"`
+				}
+				json.Unmarshal(m.data, &ev)
+				ch := sv.c.sub(ev.Subject)
+				if ch == nil {
+					return nil, false
+				}
+				ch <- &nats.Msg{Subject: ev.Subject, Reply: reply, Data: []byte(`{"query":"q=1"}`)}
+			}
+			if m.subj == reply {
+				return m.data, true
+			}
+		case <-deadline:
+			return nil, false
+		}
+	}
+}
+
 func (sv *svc) run(sc *script) ([]byte, bool) {
+	if sc.Req == "query" {
+		return sv.runQuery(sc)
+	}
 	sv.cur = sc
 	sv.n++
 	reply := "reply." + strconv.Itoa(sv.n)
@@ -1281,7 +1474,9 @@ func outcomeTerm(sc *script) string {
 	case "error":
 		return "(HError (Some " + errTerm(sc.Code, sc.Msg, sc.Data) + "))"
 	case "errorpredef":
-		return "(HError (Some " + errTerm(sc.Code, predefErr[sc.Code].Message, nil) + "))"
+		return "(HError (Some " + errTerm(sc.Code, predefDefault[sc.Code], nil) + "))"
+	case "panicpredef":
+		return "(HPanicError " + errTerm(sc.Code, predefDefault[sc.Code], nil) + ")"
 	case "errornil":
 		return "(HError None)"
 	case "errorother":
@@ -1301,8 +1496,14 @@ func outcomeTerm(sc *script) string {
 	case "granted":
 		return "HAccessGranted"
 	case "model":
+		if sc.Req == "query" {
+			return "(HModel " + sc.Result.term() + " [])"
+		}
 		return "(HModel " + sc.Result.term() + " " + B(sc.Query) + ")"
 	case "collection":
+		if sc.Req == "query" {
+			return "(HCollection " + sc.Result.term() + " [])"
+		}
 		return "(HCollection " + sc.Result.term() + " " + B(sc.Query) + ")"
 	case "panicerror":
 		return "(HPanicError " + errTerm(sc.Code, sc.Msg, sc.Data) + ")"
@@ -1327,7 +1528,9 @@ func jqOutcome(raw json.RawMessage, q string, err error) string {
 
 // client side: everything resprot tells about a payload
 func parseTerm(payload []byte) (string, [3]bool) {
-	resp := resprot.ParseResponse(payload)
+	pbuf := append([]byte{}, payload...)
+	resp := resprot.ParseResponse(pbuf)
+	scribble(pbuf, len(pbuf))
 	has := [3]bool{resp.HasResult(), resp.HasResource(), resp.HasError()}
 	// which error: unmarshal failure, "invalid response", or a decoded error object
 	var probe resprot.Response
@@ -1411,6 +1614,26 @@ var predefErr = map[string]*res.Error{
 	res.CodeInvalidQuery: res.ErrInvalidQuery, res.CodeMethodNotFound: res.ErrMethodNotFound, res.CodeNotFound: res.ErrNotFound,
 	res.CodeTimeout: res.ErrTimeout,
 }
+
+// the documented defaults as literals: the res.Err* variables are pointers that a defect may modify
+var predefDefault = map[string]string{
+	"system.accessDenied": "Access denied", "system.internalError": "Internal error", "system.invalidParams": "Invalid parameters",
+	"system.invalidQuery": "Invalid query", "system.methodNotFound": "Method not found", "system.notFound": "Not found",
+	"system.timeout": "Request timeout",
+}
+
+// predefIntact reports the predefined error variables that no longer hold their documented value
+func predefIntact() []string {
+	var bad []string
+	for code, e := range predefErr {
+		if e.Code != code || e.Message != predefDefault[code] || e.Data != nil {
+			bad = append(bad, fmt.Sprintf("%s is now {%q %q %v}", code, e.Code, e.Message, e.Data))
+		}
+	}
+	sort.Strings(bad)
+	return bad
+}
+
 var predefCodes = []string{res.CodeAccessDenied, res.CodeInternalError, res.CodeInvalidParams, res.CodeInvalidQuery,
 	res.CodeMethodNotFound, res.CodeNotFound, res.CodeTimeout}
 
@@ -1426,12 +1649,12 @@ func errorMatrix(full bool) []*script {
 	str := jstr("details")
 	num := jnum("42")
 	datas := []*J{nil, &obj, &arr, &str, &num}
-	kinds := []string{"access", "get", "call", "auth", "new"}
+	kinds := []string{"access", "get", "call", "auth", "new", "query"}
 	var out []*script
 	i := 0
 	for _, code := range predefCodes {
 		for _, custom := range []bool{false, true} {
-			msg := predefErr[code].Message
+			msg := predefDefault[code]
 			if custom {
 				msg = "Custom: " + code
 			}
@@ -1443,7 +1666,7 @@ func errorMatrix(full bool) []*script {
 						}
 						out = append(out, &script{Req: req, Kind: path, Code: code, Msg: msg, Data: d})
 						// the same with meta on the kinds that can set it (a stride of them unless full)
-						if req != "get" && req != "new" && (full || i%3 == 0) {
+						if req != "get" && req != "new" && req != "query" && (full || i%3 == 0) {
 							out = append(out, &script{Req: req, Kind: path, Code: code, Msg: msg, Data: d, Status: 404, Header: [][]string{{"Location", "/x"}}})
 						}
 					}
@@ -1454,6 +1677,7 @@ func errorMatrix(full bool) []*script {
 		for _, req := range kinds {
 			out = append(out, &script{Req: req, Kind: "errorpredef", Code: code})
 		}
+		out = append(out, &script{Req: "call", Kind: "panicpredef", Code: code}, &script{Req: "query", Kind: "panicpredef", Code: code})
 	}
 	return out
 }
@@ -1477,7 +1701,7 @@ func genScript(r *Rng) *script {
 		if r.Chance(40) {
 			sc.Code = r.Pick(predefCodes)
 			if r.Bool() {
-				sc.Msg = predefErr[sc.Code].Message
+				sc.Msg = predefDefault[sc.Code]
 			}
 		}
 		if r.Chance(40) {
@@ -1500,7 +1724,7 @@ func genScript(r *Rng) *script {
 	case k < 10:
 		sc.Req, sc.Kind, sc.Rid = "new", "new", r.Pick(ridPool)
 	case k < 13:
-		sc.Req, sc.Kind = r.Pick([]string{"call", "auth", "get", "access", "new"}), "error"
+		sc.Req, sc.Kind = r.Pick([]string{"call", "auth", "get", "access", "new", "query"}), "error"
 		errFields()
 		if sc.Req == "call" || sc.Req == "auth" || sc.Req == "access" {
 			withMeta()
@@ -1508,10 +1732,10 @@ func genScript(r *Rng) *script {
 	case k < 14:
 		sc.Req, sc.Kind, sc.Msg = r.Pick([]string{"call", "get"}), "errorother", r.Pick(msgs)
 	case k < 15:
-		sc.Req = r.Pick([]string{"call", "auth", "get", "access"})
+		sc.Req = r.Pick([]string{"call", "auth", "get", "access", "query", "query"})
 		sc.Kind = r.Pick([]string{"notfound", "invalidquery"})
 		sc.Msg = r.Pick(msgs)
-		if sc.Req != "get" {
+		if sc.Req != "get" && sc.Req != "query" {
 			withMeta()
 		}
 	case k < 16:
@@ -1524,7 +1748,7 @@ func genScript(r *Rng) *script {
 		sc.Get, sc.Call = r.Bool(), r.Pick([]string{"", "*", "set,foo", "a\"b"})
 		withMeta()
 	case k < 20:
-		sc.Req, sc.Kind = "get", "model"
+		sc.Req, sc.Kind = r.Pick([]string{"get", "get", "query"}), "model"
 		j := genJ(r, 2, false)
 		if r.Chance(70) {
 			j = J{K: 'o'}
@@ -1537,7 +1761,7 @@ func genScript(r *Rng) *script {
 		sc.Result = &j
 		sc.Query = r.Pick([]string{"", "", "q=1", "a=b&c=<d>"})
 	case k < 22:
-		sc.Req, sc.Kind = "get", "collection"
+		sc.Req, sc.Kind = r.Pick([]string{"get", "get", "query"}), "collection"
 		j := genJ(r, 2, false)
 		if r.Chance(70) {
 			j = jarr()
@@ -1548,7 +1772,7 @@ func genScript(r *Rng) *script {
 		sc.Result = &j
 		sc.Query = r.Pick([]string{"", "", "q=1"})
 	case k < 23:
-		sc.Req = r.Pick([]string{"call", "auth", "get"})
+		sc.Req = r.Pick([]string{"call", "auth", "get", "query"})
 		sc.Kind = r.Pick([]string{"panicerror", "panicstring", "panicerr"})
 		errFields()
 	default:
@@ -1678,6 +1902,11 @@ func main() {
 			add("replay", caseRespU(d.input(0)))
 		case "resp":
 			sv := newSvc()
+			if d.Script.Seq {
+				for _, m := range seqMutators() {
+					sv.run(m)
+				}
+			}
 			c, iv := caseResp(sv, d.Script)
 			sv.stop()
 			if iv != nil {
@@ -1806,6 +2035,7 @@ func main() {
 				}
 			}
 		}
+		var streamTexts []string
 		// (e) store values: triples of texts
 		for i := scale(500, 10000); i > 0; i-- {
 			a := genValueAST(r)
@@ -1830,6 +2060,25 @@ func main() {
 				}
 			}
 			add("value", caseVal(ts))
+			streamTexts = append(streamTexts, ts[0], ts[1], ts[2])
+			if len(streamTexts) >= 24 {
+				if iv := streamAlias(streamTexts); iv != nil {
+					impl = append(impl, *iv)
+				}
+				dist["value-stream"]++
+				streamTexts = nil
+			}
+		}
+		// numbers: values that differ only where float64 cannot tell, and the spellings of one number
+		for _, ns := range [][3]string{{"9007199254740992", "9007199254740993", "9007199254740992.0"}, {"-9007199254740992", "-9007199254740993", "-9007199254740994"},
+			{"9223372036854775807", "9223372036854775808", "9.223372036854775807e18"}, {"-9223372036854775808", "-9223372036854775809", "-9223372036854775808.0"},
+			{"1.0", "1", "1e0"}, {"-0", "0", "0.0"}, {"0.1", "0.10000000000000000555", "0.1000000000000000055511151231257827"},
+			{"100", "1e2", "1E+2"}, {"1e400", "1e401", "1e400"}, {"3.141592653589793238462643383279", "3.141592653589793", "3.1415926535897932"},
+			{"18446744073709551616", "18446744073709551617", "18446744073709551616"}} {
+			for _, tmpl := range []string{`%s`, `{"data":%s}`, `{"data":[%s]}`, `{"data":{"n":%s}}`, `{"data":[[{"a":[%s,"x"]}]]}`} {
+				add("value-numbers", caseVal([3]string{fmt.Sprintf(tmpl, ns[0]), fmt.Sprintf(tmpl, ns[1]), fmt.Sprintf(tmpl, ns[2])}))
+			}
+			add("value-numbers", caseVal([3]string{fmt.Sprintf(`{"data":[%s]}`, ns[0]), fmt.Sprintf(`{"data":[%s]}`, ns[1]), fmt.Sprintf(`{"data":[%s]}`, ns[0])}))
 		}
 		for _, ts := range [][3]string{{"", " ", "\n"}, {"1", " 1", "1 "}, {`{"data":1}`, "1", "1.0"}, {`{"rid":"a"}`, `{"rid":"a","soft":false}`, `{"rid":"a","soft":true}`},
 			{`{"action":"delete"}`, `{"action":"delete","x":1}`, `{"data":{"action":"delete"}}`}, {`{"data":[1]}`, `{"data":[1] }`, `{"data": [1]}`}, {"null", `{"data":null}`, "{}"}} {
@@ -1932,7 +2181,39 @@ func main() {
 			}
 			add("response", c)
 		}
+		// sequences in this one process: helper calls with a custom message (on Request and on QueryRequest), then
+		// responses built from the predefined error VARIABLES through every path that encodes them (not the
+		// pre-encoded static payloads); the expectation is the literal documented code and message
+		for round := 0; round < 2; round++ {
+			seq := seqMutators()
+			nmut := len(seq)
+			for _, code := range predefCodes {
+				for _, req := range []string{"call", "auth", "get", "access", "new", "query"} {
+					seq = append(seq, &script{Req: req, Kind: "errorpredef", Code: code}, &script{Req: req, Kind: "panicpredef", Code: code})
+				}
+			}
+			hdr := [][]string{{"Location", "/x"}}
+			for _, req := range []string{"call", "auth"} {
+				for _, kind := range []string{"notfound", "methodnotfound", "invalidparams", "invalidquery"} {
+					seq = append(seq, &script{Req: req, Kind: kind, Status: 404, Header: hdr})
+				}
+			}
+			seq = append(seq, &script{Req: "access", Kind: "denied", Status: 403}, &script{Req: "access", Kind: "access", Status: 403},
+				&script{Req: "access", Kind: "notfound", Status: 404}, &script{Req: "access", Kind: "invalidquery", Status: 400})
+			for i, sc := range seq {
+				sc.Seq = i >= nmut
+				if c, iv := caseResp(sv, sc); iv != nil {
+					impl = append(impl, *iv)
+				} else {
+					add("response-sequence", c)
+				}
+			}
+		}
 		sv.stop()
+		if bad := predefIntact(); len(bad) > 0 {
+			impl = append(impl, ImplViolation{What: "a predefined error variable was modified while serving requests: " + strings.Join(bad, "; "),
+				Desc: desc{Kind: "predefined-errors"}, Tags: []string{"predefined-error-mutated"}})
+		}
 		// (g) arbitrary response texts
 		for i := scale(300, 6000); i > 0; i-- {
 			t := renderOuter(r, genRespAST(r), 25)
